@@ -23,7 +23,10 @@ Polys == { << <<0, 0>>, <<40, 0>>, <<40, 30>>, <<0, 30>> >>, << <<0, 0>>, <<50, 
 \* vertex-defined shades, with twice their area
 VShapes == { [verts |-> << <<0, 0, 0>>, <<40, 30, 0>>, <<40, 30, 25>>, <<0, 0, 25>> >>, a2 |-> 2500],               \* vertical, oblique in plan
              [verts |-> << <<-20, -60, 20>>, <<40, -60, 20>>, <<40, -20, 50>>, <<-20, -20, 50>> >>, a2 |-> 6000],   \* sloping (3,4,5)
-             [verts |-> << <<100, 0, 30>>, <<160, 0, 30>>, <<130, 40, 30>> >>, a2 |-> 2400] }                       \* horizontal triangle
+             [verts |-> << <<100, 0, 30>>, <<160, 0, 30>>, <<130, 40, 30>> >>, a2 |-> 2400],                        \* horizontal triangle
+             \* a canopy with twelve corners (a cross of arms 20 wide, 60 x 60 overall): the order of V10..V12 matters
+             [verts |-> << <<220, 0, 35>>, <<240, 0, 35>>, <<240, 20, 35>>, <<260, 20, 35>>, <<260, 40, 35>>, <<240, 40, 35>>,
+                           <<240, 60, 35>>, <<220, 60, 35>>, <<220, 40, 35>>, <<200, 40, 35>>, <<200, 20, 35>>, <<220, 20, 35>> >>, a2 |-> 4000] }
 Space(o, as, ol) == [x |-> o[1], y |-> o[2], z |-> o[3], h |-> 30, as |-> as, outline |-> ol]
 VARIABLE c
 Init ==
